@@ -23,5 +23,6 @@ for c in "$@"; do
   res="$res $c:rc=$rc:$(echo "$out" | grep -c '^VIOLATION'):$(echo "$out" | grep -c 'no-failing-input-found')"
 done
 git -C /repo checkout -- .
+git -C /verif checkout -- evidence/ 2>/dev/null
 echo "RESULT $id $res"
 echo "{\"baseline_with_change\": \"$b\", \"demo_with_change\": \"$d1\", \"demo_original\": \"$d0\", \"checks\": \"$res\"}" > /verif/seeded/$id/ran.json
